@@ -17,5 +17,13 @@ for kw in ({"head": 2}, {"tail": 1}, {"head": 3}):
     got = schema.validate(df, **kw)["a"].tolist()
     obs[str(kw)] = got
     bad = bad or got != full
+# the same root: the default of a REGEX column is filled by the component (on the sub-sample copy), a named column's by the container
+import numpy as np
+
+rx = pa.DataFrameSchema({"x_.*": pa.Column(float, regex=True, default=0.0)})
+d2 = pd.DataFrame({"x_1": [1.0, 2.0, np.nan]})
+whole, sub = rx.validate(d2)["x_1"].tolist(), rx.validate(d2, head=1)["x_1"].tolist()
+obs["regex column default, no option / head=1"] = [whole, sub]
+bad = bad or repr(whole) != repr(sub)
 print(obs)
 sys.exit(1 if bad else 0)
